@@ -4,6 +4,7 @@ package main
 
 import (
 	"fmt"
+	"go/token"
 	"strings"
 
 	"golang.org/x/tools/go/ssa"
@@ -29,6 +30,25 @@ func (i *Interp) noteWrite(addr *value, fr *frame, in ssa.Instruction) {
 	}
 	if name, ok := ex.frozen[addr]; ok && !i.locked() {
 		i.monitorFail("unsynchronised write to shared state ("+name+")", fr, in)
+	}
+}
+
+// noteWriteAt is noteWrite for the element writes of the append and copy
+// builtins (append into spare capacity writes the shared backing array).
+func (i *Interp) noteWriteAt(addr *value, fr *frame, pos token.Pos, what string) {
+	ex := i.ex
+	if ex == nil || ex.frozen == nil {
+		return
+	}
+	if name, ok := ex.frozen[addr]; ok && !i.locked() {
+		where := ""
+		if fr != nil {
+			where = fr.fn.String()
+			if pos != token.NoPos {
+				where = i.prog.Fset.Position(pos).String()
+			}
+		}
+		i.fail("assert", "unsynchronised write to shared state ("+name+") by "+what, where, fr)
 	}
 }
 
